@@ -3,7 +3,6 @@
 
 use std::borrow::Cow;
 
-use identity_did::CoreDID;
 use identity_did::DIDUrl;
 use identity_did::RelativeDIDUrl;
 use identity_did::DID;
@@ -14,6 +13,10 @@ use identity_did::DID;
 pub struct DIDUrlQuery<'query>(Cow<'query, str>);
 
 impl DIDUrlQuery<'_> {
+  /// Prefix of a query that is a full DID Url. Note that a bare fragment may start with the scheme
+  /// name itself (e.g. `did-key-1`), hence the colon is required.
+  const DID_SCHEME_PREFIX: &'static str = "did:";
+
   /// Returns whether this query matches the given DIDUrl.
   pub(crate) fn matches(&self, did_url: &DIDUrl) -> bool {
     // Ensure the DID matches if included in the query.
@@ -33,7 +36,7 @@ impl DIDUrlQuery<'_> {
   /// Extract the DID portion of the query if it exists.
   fn did_str(&self) -> Option<&str> {
     let query: &str = self.0.as_ref();
-    if !query.starts_with(CoreDID::SCHEME) {
+    if !query.starts_with(Self::DID_SCHEME_PREFIX) {
       return None;
     }
 
@@ -49,7 +52,7 @@ impl DIDUrlQuery<'_> {
   /// Extract the query fragment if it exists.
   fn fragment(&self) -> Option<&str> {
     let query: &str = self.0.as_ref();
-    let fragment_maybe: Option<&str> = if query.starts_with(CoreDID::SCHEME) {
+    let fragment_maybe: Option<&str> = if query.starts_with(Self::DID_SCHEME_PREFIX) {
       // Extract the fragment from a full DID-Url-like string.
       query.rfind('#').and_then(|index| query.get(index + 1..))
     } else if let Some(fragment_delimiter_index) = query.rfind('#') {
